@@ -61,3 +61,24 @@ func Completes(d time.Duration, f func()) bool {
 		return false
 	}
 }
+
+// BlockedAnywhere is BlockedOnMutex for goroutines that wait in any way (mutex, channel, select, sleep, condition
+// variable, WaitGroup) below a frame containing one of the given substrings.
+func BlockedAnywhere(dump string, under ...string) string {
+	for _, g := range strings.Split(dump, "\n\n") {
+		head, _, _ := strings.Cut(g, "\n")
+		waiting := false
+		for _, st := range []string{"[chan receive", "[chan send", "[select", "[sleep", "[sync.Cond.Wait", "[sync.WaitGroup.Wait", "[semacquire", "[sync.Mutex.Lock", "[sync.RWMutex"} {
+			waiting = waiting || strings.Contains(head, st)
+		}
+		if !waiting || !strings.Contains(g, "kit.Completes") {
+			continue
+		}
+		for _, u := range under {
+			if strings.Contains(g, u) {
+				return g
+			}
+		}
+	}
+	return ""
+}
